@@ -842,6 +842,12 @@ def iterate(I, ctx, v):
             return iterate(I, ctx, I.call(ctx, m, [v], {}))
     if isinstance(v, Opaque) and v.attrs.get("iter"):
         return v.attrs["iter"](ctx)
+    from .pybuiltins import IterVal
+    if isinstance(v, IterVal):
+        # an iterator over a concrete collection: what is left of it (and the iterator is exhausted)
+        rest = list(v.items[v.pos:])
+        v.pos = len(v.items)
+        return rest
     raise Unsupported(f"iteration over {v!r} at {ctx.where}")
 
 
